@@ -2,6 +2,9 @@
 
 #include <yaclib/util/detail/default_deleter.hpp>
 
+#include <atomic>
+#include <cstddef>
+
 namespace yaclib::detail {
 
 template <typename CounterBase, typename Deleter = DefaultDeleter>
@@ -23,7 +26,7 @@ struct OneCounter : CounterBase {
     Deleter::Delete(*this);
   }
 
-  std::size_t Get() noexcept {
+  std::size_t Get(std::memory_order /*order*/ = std::memory_order_relaxed) noexcept {
     return 1;
   }
 };
